@@ -490,10 +490,20 @@ func (f *Func) reachTarget(
 
 			case *valueVertex:
 				if pathIdx > 0 {
-					prev := path[pathIdx-1]
-					if r, ok := prev.(*typedOutputVertex); ok {
+					switch r := path[pathIdx-1].(type) {
+					case *typedOutputVertex:
 						log.Trace("setting node value", "value", r.Value)
 						v.Value = r.Value
+
+					case *valueVertex:
+						// The only edge between two named values lets a value
+						// without subtype take the same-named value that has
+						// one: take it, so that whoever requires this vertex
+						// finds the value here instead of searching again.
+						if r.Value.IsValid() {
+							log.Trace("setting node value", "value", r.Value)
+							v.Value = r.Value
+						}
 					}
 				}
 
